@@ -74,7 +74,8 @@ def check(prog: Program, tier: str) -> Result:
             "is compared; (R12.4) combination rules: a failed child fails the parent, repeated wildcards must agree "
             "(consistency test dominates every successful merge), alternatives (tuples) succeed on the first matching "
             "alternative, type templates use isinstance, AST templates require the same node class; (R12.5) search completeness of the list "
-            "matcher: a result is returned from inside the loop over quantifier expansions only after it was tested to be a match. Not decided: the "
+            "matcher: a result is returned from inside the loop over quantifier expansions only after it was tested to be a match; (R12.6) node "
+            "kinds the template compiler rebuilds by hand carry over every field of the class (type_params). Not decided: the "
             "backtracking search itself (slack arithmetic, window arithmetic of walk_sequence)."),
         rule_text="instances = table entries and combination-rule sites in core.py",
     )
@@ -84,7 +85,8 @@ def check(prog: Program, tier: str) -> Result:
     _r12_3(prog, res)
     _r12_4(prog, res)
     _r12_5(prog, res)
-    res.floors.update({"R12.1": 18, "R12.2": 11, "R12.3": 3, "R12.4": 8, "R12.5": 1})
+    _r12_6(prog, res)
+    res.floors.update({"R12.1": 18, "R12.2": 11, "R12.3": 3, "R12.4": 8, "R12.5": 1, "R12.6": 4})
     return res
 
 
@@ -435,6 +437,47 @@ def _r12_4(prog: Program, res: Result) -> None:
     res.decide(ok, "R12.4", fn6.loc(), fn6.fq, "set template", "every element matches one of the alternatives" if ok else "set templates changed meaning")
 
 
+# ------------------------------------------------------------------------------------------------ R12.6
+NON_SEMANTIC_FIELDS = {"type_comment"}      # comments; every other field of a node is part of the program
+
+
+def _r12_6(prog: Program, res: Result) -> None:
+    """The template compiler rebuilds some node kinds by hand (visit_FunctionDef, visit_ClassDef, ...).  A field of the
+    node class that is not passed to the constructor is ABSENT from the compiled template, and the matcher only compares
+    the fields a template has: `def f(x)` then matches `def f[T](x)`.  For every visit_K of the transformer that
+    constructs ast.K, the keywords passed (directly or through a `**kwargs` dict filled in the method) must cover
+    K._fields of the running interpreter, comments aside."""
+    n = 0
+    for fn in prog.funcs.values():
+        if not (fn.mod.name == "core" and "_NameWildcardTransformer.visit_" in fn.qual):
+            continue
+        kind = fn.qual.split("visit_")[-1]
+        cls = getattr(ast, kind, None)
+        if cls is None or not hasattr(cls, "_fields"):
+            continue
+        ctor = [c for c in prog.calls_in(fn) if norm(c.func) == f"ast.{kind}"]
+        if not ctor:
+            continue
+        n += 1
+        dict_keys = {}
+        for a in walk_own(fn.node):
+            if isinstance(a, ast.Assign) and isinstance(a.targets[0], ast.Subscript) and isinstance(a.targets[0].value, ast.Name) \
+                    and isinstance(a.targets[0].slice, ast.Constant):
+                dict_keys.setdefault(a.targets[0].value.id, set()).add(str(a.targets[0].slice.value))
+        for c in ctor:
+            passed = {k.arg for k in c.keywords if k.arg}
+            for k in c.keywords:
+                if k.arg is None and isinstance(k.value, ast.Name):
+                    passed |= dict_keys.get(k.value.id, set())
+            passed |= set(cls._fields[:len(c.args)])
+            missing = [f for f in cls._fields if f not in passed and f not in NON_SEMANTIC_FIELDS]
+            res.decide(not missing, "R12.6", fn.loc(c), fn.fq, f"ast.{kind}(..) rebuilt with fields {sorted(passed)}",
+                       f"all fields of ast.{kind} are carried over" if not missing else
+                       f"field(s) {missing} of ast.{kind} are not carried over into the compiled template: the matcher never compares them, so patterns match nodes "
+                       f"that differ there (`def f(x)` matches `def f[T](x)`)")
+    res.analysed["rebuilt_node_kinds"] = n
+
+
 # ------------------------------------------------------------------------------------------------ R12.5
 def _r12_5(prog: Program, res: Result) -> None:
     """Search completeness of the list matcher: inside the loop over the quantifier expansions a `return` may only
@@ -486,6 +529,8 @@ def _r12_5(prog: Program, res: Result) -> None:
 from ..selftest import Variant  # noqa: E402
 
 VARIANTS = [
+    Variant("class-pattern-without-type-params", "FIRE", "core",
+            "            decorator_list=new_decorators,\n            body=new_body,\n            **kwargs,\n        )", "            decorator_list=new_decorators,\n            body=new_body,\n        )", "R12.6"),
     Variant("return-unchecked-merge-from-expansion-loop", "FIRE", "core",
             "        merged = merge_matches(permutation, matches)\n        if merged:\n            return merged\n",
             "        return merge_matches(permutation, matches)\n", "R12.5"),
